@@ -1,0 +1,243 @@
+//! Observation hooks for deterministic simulation. Compiled only with `--cfg rdest_verif`;
+//! without that flag nothing in this file (or any call to it) exists in the build.
+//!
+//! The hooks only *report* what the client does (plain std data handed to a thread-local sink)
+//! and let the simulator own two sources of nondeterminism that cannot be replaced from outside
+//! the crate: the iteration order of the peer map and the extractor's use of `std::fs`.
+
+use crate::frame::Frame;
+use std::cell::RefCell;
+use std::hash::{BuildHasher, Hasher};
+
+#[derive(Clone, Debug)]
+pub struct PeerSnap {
+    pub addr: String,
+    pub id: Option<[u8; 20]>,
+    pub pieces: Vec<bool>,
+    pub piece_index: Option<usize>,
+    pub am_interested: bool,
+    pub am_choked: bool,
+    pub interested: bool,
+    pub choked: bool,
+    pub optimistic_unchoke: bool,
+    pub download_rate: Option<u32>,
+    pub uploaded_rate: Option<u32>,
+}
+
+/// `status[i]`: -1 = Have, 0 = Missing, n > 0 = Reserved(n).
+#[derive(Clone, Debug, Default)]
+pub struct Snap {
+    pub status: Vec<i64>,
+    pub peers: Vec<PeerSnap>,
+    pub candidates: usize,
+}
+
+#[derive(Clone, Debug)]
+pub enum Ev {
+    /// State of the manager before it waits for the next event.
+    Snapshot(Snap),
+    /// Result of one piece choice together with the state it was taken in.
+    Pick { addr: String, chosen: Option<usize>, snap: Snap },
+    /// A piece was marked as owned (broadcast order of have-announcements).
+    PieceDone { addr: String, index: usize },
+    /// One executed choke rotation.
+    Rotation { rates: Vec<(String, u32)>, new_optimistic: Vec<String>, map: Vec<(String, bool)>, snap: Snap },
+    /// The manager handled a kill request.
+    KillReq { addr: String, reason: String },
+    /// A frame left `Connection::recv_frame`.
+    Decoded { addr: String, frame: String, consumed: usize },
+    /// `Connection::recv_frame` returned an error.
+    RecvErr { addr: String, err: String },
+    /// Receive-buffer length after a socket read.
+    Buffered { addr: String, len: usize },
+    /// The connection task starts fetching a piece.
+    Assigned { addr: String, index: usize, len: usize },
+}
+
+thread_local! {
+    static SINK: RefCell<Option<Box<dyn FnMut(Ev)>>> = RefCell::new(None);
+    static HASH_KEYS: RefCell<(u64, u64)> = RefCell::new((0, 0));
+    static FS: RefCell<Option<Box<dyn fs::Backend>>> = RefCell::new(None);
+}
+
+pub fn install_sink(f: Box<dyn FnMut(Ev)>) {
+    SINK.with(|s| *s.borrow_mut() = Some(f));
+}
+
+pub fn set_hash_keys(k0: u64, k1: u64) {
+    HASH_KEYS.with(|k| *k.borrow_mut() = (k0, k1));
+}
+
+pub fn install_fs(b: Box<dyn fs::Backend>) {
+    FS.with(|s| *s.borrow_mut() = Some(b));
+}
+
+pub fn emit(ev: Ev) {
+    SINK.with(|s| {
+        if let Some(f) = s.borrow_mut().as_mut() {
+            f(ev)
+        }
+    });
+}
+
+pub fn fnv(bytes: &[u8]) -> u64 {
+    let mut h: u64 = 0xcbf2_9ce4_8422_2325;
+    for b in bytes {
+        h ^= *b as u64;
+        h = h.wrapping_mul(0x0000_0100_0000_01B3);
+    }
+    h
+}
+
+/// Rendering of a decoded frame: `{:?}` for everything except piece payloads, which are
+/// summarised by length and FNV-1a digest.
+pub fn render_frame(frame: &Frame) -> String {
+    match frame {
+        Frame::Piece(p) => format!(
+            "Piece {{ piece_index: {}, block_begin: {}, block_len: {}, block_fnv: {} }}",
+            p.piece_index(),
+            p.block_begin(),
+            p.block_length(),
+            fnv(p.block())
+        ),
+        other => format!("{:?}", other),
+    }
+}
+
+pub fn decoded(addr: &String, frame: &Frame, consumed: usize) {
+    emit(Ev::Decoded { addr: addr.clone(), frame: render_frame(frame), consumed });
+}
+
+pub fn recv_err(addr: &String, err: &crate::Error) {
+    emit(Ev::RecvErr { addr: addr.clone(), err: err.to_string() });
+}
+
+pub fn buffered(addr: &String, len: usize) {
+    emit(Ev::Buffered { addr: addr.clone(), len });
+}
+
+pub fn assigned(addr: &String, index: usize, len: usize) {
+    emit(Ev::Assigned { addr: addr.clone(), index, len });
+}
+
+/// Deterministic, seedable replacement for `RandomState` (peer map only).
+#[derive(Clone)]
+pub struct SimBuildHasher {
+    k0: u64,
+    k1: u64,
+}
+
+impl Default for SimBuildHasher {
+    fn default() -> Self {
+        let (k0, k1) = HASH_KEYS.with(|k| *k.borrow());
+        SimBuildHasher { k0, k1 }
+    }
+}
+
+pub struct SimHasher {
+    h: u64,
+    k1: u64,
+}
+
+impl BuildHasher for SimBuildHasher {
+    type Hasher = SimHasher;
+    fn build_hasher(&self) -> SimHasher {
+        SimHasher { h: 0xcbf2_9ce4_8422_2325 ^ self.k0, k1: self.k1 }
+    }
+}
+
+impl Hasher for SimHasher {
+    fn write(&mut self, bytes: &[u8]) {
+        for b in bytes {
+            self.h ^= *b as u64;
+            self.h = self.h.wrapping_mul(0x0000_0100_0000_01B3);
+        }
+    }
+    fn finish(&self) -> u64 {
+        let mut z = self.h ^ self.k1;
+        z = (z ^ (z >> 30)).wrapping_mul(0xBF58_476D_1CE4_E5B9);
+        z = (z ^ (z >> 27)).wrapping_mul(0x94D0_49BB_1331_11EB);
+        z ^ (z >> 31)
+    }
+}
+
+/// Stand-in for the parts of `std::fs` the extractor uses, served by the simulated disk.
+pub mod fs {
+    use super::FS;
+    use std::io;
+    use std::path::Path;
+
+    pub trait Backend {
+        fn create_dir_all(&mut self, path: &str) -> io::Result<()>;
+        /// returns a handle name
+        fn create(&mut self, path: &str) -> io::Result<String>;
+        fn open(&mut self, path: &str) -> io::Result<String>;
+        fn read_at(&mut self, handle: &str, pos: u64, buf: &mut [u8]) -> io::Result<usize>;
+        fn write_at(&mut self, handle: &str, pos: u64, buf: &[u8]) -> io::Result<usize>;
+        fn len(&mut self, handle: &str) -> io::Result<u64>;
+    }
+
+    fn with<R>(f: impl FnOnce(&mut dyn Backend) -> io::Result<R>) -> io::Result<R> {
+        FS.with(|s| match s.borrow_mut().as_mut() {
+            Some(b) => f(b.as_mut()),
+            None => Err(io::Error::new(io::ErrorKind::Other, "no simulated disk installed")),
+        })
+    }
+
+    pub fn create_dir_all<P: AsRef<Path>>(path: P) -> io::Result<()> {
+        let p = path.as_ref().to_string_lossy().to_string();
+        with(|b| b.create_dir_all(&p))
+    }
+
+    pub struct File {
+        handle: String,
+        pos: u64,
+    }
+
+    impl File {
+        pub fn create<P: AsRef<Path>>(path: P) -> io::Result<File> {
+            let p = path.as_ref().to_string_lossy().to_string();
+            Ok(File { handle: with(|b| b.create(&p))?, pos: 0 })
+        }
+
+        pub fn open<P: AsRef<Path>>(path: P) -> io::Result<File> {
+            let p = path.as_ref().to_string_lossy().to_string();
+            Ok(File { handle: with(|b| b.open(&p))?, pos: 0 })
+        }
+    }
+
+    impl io::Read for File {
+        fn read(&mut self, buf: &mut [u8]) -> io::Result<usize> {
+            let n = with(|b| b.read_at(&self.handle, self.pos, buf))?;
+            self.pos += n as u64;
+            Ok(n)
+        }
+    }
+
+    impl io::Write for File {
+        fn write(&mut self, buf: &[u8]) -> io::Result<usize> {
+            let n = with(|b| b.write_at(&self.handle, self.pos, buf))?;
+            self.pos += n as u64;
+            Ok(n)
+        }
+        fn flush(&mut self) -> io::Result<()> {
+            Ok(())
+        }
+    }
+
+    impl io::Seek for File {
+        fn seek(&mut self, pos: io::SeekFrom) -> io::Result<u64> {
+            let len = with(|b| b.len(&self.handle))? as i128;
+            let new = match pos {
+                io::SeekFrom::Start(n) => n as i128,
+                io::SeekFrom::End(d) => len + d as i128,
+                io::SeekFrom::Current(d) => self.pos as i128 + d as i128,
+            };
+            if new < 0 {
+                return Err(io::Error::new(io::ErrorKind::InvalidInput, "negative seek"));
+            }
+            self.pos = new as u64;
+            Ok(self.pos)
+        }
+    }
+}
